@@ -239,7 +239,7 @@ def obligations(tier):
         if tier == "thorough":
             out += specs("C08.model", [{"tomo": "qmpt", "sysname": "Q2", "m": 2, "flag": flag, "tester": "small", "variant": "all"}], ob_model, 20)
             out += specs("C08.model", [{"tomo": "qpt", "sysname": "Q2", "m": 0, "flag": flag, "tester": "small", "variant": "all"}], ob_model, 10)
-    out += specs("C08.circuit.qmpt", tiers(tier, [], [{"tester": "default"}, {"tester": "mixed"}]), ob_circuit_qmpt, 12)
+    out += specs("C08.circuit.qmpt", tiers(tier, [], [{"tester": "default"}]), ob_circuit_qmpt, 12)
     for tomo in ("qst", "povmt", "qpt"):
         for m in ([0] if tomo in ("qst", "qpt") else [2]):
             out += specs("C08.circuit", [{"tomo": tomo, "sysname": "Q1", "m": m, "tester": "default", "variant": "all"}], ob_circuit, 10)
